@@ -39,7 +39,7 @@ type c14Case struct {
 const c14Batch = 150
 
 func (p *c14) Bounds(tier string) map[string]interface{} {
-	return map[string]interface{}{"corpus_files": len(c14Corpus(tier)), "token_substitutes": c14Subst, "sweeps": c14Shapes, "sweep_max": 300, "cycle_graphs": "all functions {1..3} -> {1..3, none} per reference kind", "deadline_per_batch_s": 10}
+	return map[string]interface{}{"corpus_files": len(c14Corpus(tier)), "token_substitutes": c14Subst, "two_token_mutations": "gen/small: all token pairs x {delete,duplicate,{,},;,\"}^2; thorough also gen/everything x {delete,duplicate}^2", "sweeps": c14Shapes, "sweep_max": 300, "cycle_graphs": "all functions {1..3} -> {1..3, none} per reference kind", "deadline_per_batch_s": 10}
 }
 
 var c14Subst = []string{"{", "}", ";", "+", `"x"`, "x", "container", "p:x", "123", "type", "uses", `'`, `"`}
@@ -224,6 +224,21 @@ func (p *c14) Cases(tier string, emit func(interface{})) {
 				to = n
 			}
 			emit(c14Case{Kind: "token", File: f, From: from, To: to})
+		}
+	}
+	// two simultaneous token mutations: every pair of tokens x every pair of mutation kinds
+	// on the small generated module; thorough: delete/duplicate pairs on the module that
+	// holds every statement kind
+	{
+		n := len(yangTokens(c14Gen["gen/small"]))
+		for i := 0; i < n; i++ {
+			emit(c14Case{Kind: "token2", File: "gen/small", From: i, To: i + 1})
+		}
+		if tier == "thorough" {
+			n := len(yangTokens(c14Gen["gen/everything"]))
+			for i := 0; i < n; i++ {
+				emit(c14Case{Kind: "token2", File: "gen/everything", From: i, To: i + 1})
+			}
 		}
 	}
 	max := 300
@@ -925,6 +940,38 @@ func (p *c14) Run(raw json.RawMessage) eng.Result {
 				res.Nontriv++
 				if sym, what := c14Load(muts[k], op); sym != "" {
 					report("token-mutation", sym, fmt.Sprintf("%s token %d %q %s: %s", c.File, ti, text[t.start:t.end], k, what), ti)
+				}
+			}
+		}
+	case "token2":
+		text := c14Text(c.File)
+		op := c14Opener(c.File)
+		toks := yangTokens(text)
+		kinds := []string{"delete", "duplicate", "{", "}", ";", `"`}
+		if c.File != "gen/small" {
+			kinds = []string{"delete", "duplicate"}
+		}
+		mutate := func(src string, t yTok, k string) string {
+			switch k {
+			case "delete":
+				return src[:t.start] + src[t.end:]
+			case "duplicate":
+				return src[:t.end] + " " + src[t.start:t.end] + src[t.end:]
+			}
+			return src[:t.start] + k + src[t.end:]
+		}
+		for ti := c.From; ti < c.To && ti < len(toks); ti++ {
+			for tj := ti + 1; tj < len(toks); tj++ {
+				for _, kj := range kinds {
+					// the later token first so that the earlier offsets stay valid
+					first := mutate(text, toks[tj], kj)
+					for _, ki := range kinds {
+						res.Evals++
+						res.Nontriv++
+						if sym, what := c14Load(mutate(first, toks[ti], ki), op); sym != "" {
+							report("two-token-mutations", sym, fmt.Sprintf("%s token %d %q %s and token %d %q %s: %s", c.File, ti, text[toks[ti].start:toks[ti].end], ki, tj, text[toks[tj].start:toks[tj].end], kj, what), ti)
+						}
+					}
 				}
 			}
 		}
